@@ -224,7 +224,7 @@ func c20Explore(c *RunCtx, def *ph.Def, argv []string, compLine string, d int) (
 func init() {
 	register(&Check{
 		ID:        "C20",
-		QuickSecs: 900, ThoroSecs: 1500,
+		QuickSecs: 900, ThoroSecs: 3000,
 		Rule: "exploration of hidden nondeterminism: Go's randomised map iteration is replaced (build-time instrumentation of all 22 map ranges of the library) by an explorer-chosen rotation of the sorted key order; for 16 definitions with >= 2 entries in every internal table (options, aliases, commands, suggestions, required options) x 58 argv and 21 COMP_LINE texts, four environment-bound options whose variables all hold unusable text, provoking several simultaneous diagnostics, " +
 			"every execution with <= d non-default rotations is run (bounded-deviation DFS over the range executions) and its complete observation vector (values, remaining, error text, warnings, dispatch result, help text, completion list) must be identical to the default-order run; additionally the same case is run twice with the native map order, and two completion lines are run with a dynamic completion function that answers after 1.5 s and at once (the list must not depend on it), and 16 Parse+Dispatch cases (live and already cancelled context) are run under the controlled scheduler for every schedule with <= 2 deviations of whatever goroutines the library starts; " +
 			"states = choice points visited, transitions = range executions, distinct_nontrivial = cases whose execution has at least one order choice point",
